@@ -161,3 +161,47 @@ def register(claim, na):
     na("C17", "volumes, positivity, partition and potentials are numerical facts about generated vertex data over continuous "
               "parameters; the only static part (combinatorics of literal tables) is too small a share of the statement to "
               "claim the property through it (DESIGN.md §4 C17)")
+
+
+# clauses added in session 2, rounds 2-3 (appended to the claim text; the rule catalogue with techniques is DESIGN.md 4c)
+ADDED = {
+    "C01": "R-ERICSON: the six Voronoi-region tests of closest_point_triangle are Ericson's conditions (names resolved to the vertices).",
+    "C02": "R-ERICSON (jolt triangle solver); R-MAINLOOP (the two Nesterov main loops are statement-for-statement the same shape); R-PORTALDIR (the portal "
+           "direction used with the length tolerance of MPR is unit).",
+    "C03": "R-BASISGUARD (plane_basis_from_normal branches on magnitudes before dividing by the length of the winning pair); R-ADJACENCY (each vertex of a mesh "
+           "triangle gets the other two as neighbours); R-HALFSIZE; R-PUREARGS (public functions never modify an array argument in place).",
+    "C04": "R-LINKS / R-REFIT on the AABB tree that backs RigidBody.aabb(); R-HALFSIZE; R-PUREARGS.",
+    "C05": "R-CLOSED is decided by abstract evaluation of aabb_overlap's body on all 729 order types of the six bound pairs (loops, early exits and negations included).",
+    "C06": "R-CLOSED by abstract evaluation (see C05).",
+    "C07": "R-LOUDCAP: running out of polytope faces is asserted, never a silent break.",
+    "C08": "R-ERICSON (point_to_triangle, used for depth and direction); R-PORTALDIR.",
+    "C09": "R-MAINLOOP (see C02).",
+    "C10": "R-ERICSON (point_to_triangle); R-HALFSIZE; R-PUREARGS.",
+    "C11": "R-ERICSON; R-SIDES (x2 computed from side-2 data: the rectangle extents); R-HALFSIZE.",
+    "C12": "R-MIRROR / R-CASEDISPATCH / R-TOURNAMENT / R-BOXFACE: the line-to-box case analysis is invariant under relabelling of the box axes.",
+    "C13": "R-HALFSIZE over the predicates and the point_to_<shape> functions they must agree with; R-PUREARGS.",
+    "C14": "R-ADJACENCY; R-PUREARGS.",
+    "C15": "R-STIFFNESS: both terms of the contact-plane expression carry the same Young's-modulus exponents (dimensional bookkeeping with E1, E2 as units); "
+           "R-HPLAYOUT: half-plane rows (px, py | dx, dy) are sliced only at pair boundaries.",
+    "C16": "R-STIFFNESS (see C15).",
+    "C18": "R-ERICSON (jolt); Solution.from_vertex stores weight 1 in slot 0 (R-JOHNSON).",
+    "C19": "R-BASISGUARD.",
+}
+ALL = "R-UNPACK (tuple results unpacked in the callee's return order) and R-DUPCOND (no repeated operand / self-comparison / repeated elif test) over every function in the property's scope."
+
+
+def _wrap(register_):
+    def reg(claim, na):
+        def claim2(pid, technique, text, ref):
+            extra = ADDED.get(pid, "")
+            cut = text.rfind("Does not decide")
+            if cut < 0:
+                cut = text.rfind("Does not")
+            add = (" Also decided: " + extra + " " + ALL + " ") if extra else (" Also decided: " + ALL + " ")
+            text = (text[:cut].rstrip() + add + text[cut:]) if cut > 0 else (text + add)
+            claim(pid, technique, text, ref)
+        register_(claim2, na)
+    return reg
+
+
+register = _wrap(register)
